@@ -5,6 +5,7 @@
 // (D5: `Box<dyn FnMut>` calls are outside Verus).
 // ---------------------------------------------------------------------------
 use std::collections::HashMap;
+pub use std::time::Duration;
 pub assume_specification [std::time::Duration::from_millis] (ms: u64) -> std::time::Duration;
 pub assume_specification [std::time::Duration::from_secs] (s: u64) -> std::time::Duration;
 
